@@ -473,6 +473,7 @@ fn distribute(rep: &mut Report, tables: &str) {
         let pstep = if quick && n > 2048 { 97 } else { 1 };
         let mut p = 0u32;
         while p < n.max(1) {
+            let longest = real_dist(p as u16, n as u16, 255).unwrap_or_default();
             for &rf in rfs {
                 let want = dist_model(p, n, rf as u32);
                 let got = real_dist(p as u16, n as u16, rf);
@@ -484,7 +485,6 @@ fn distribute(rep: &mut Report, tables: &str) {
                         }
                         // the property, stated directly; a smaller rf yields a prefix of the result for a larger one;
                         // the same call gives the same result
-                        let longest = real_dist(p as u16, n as u16, 255).unwrap_or_default();
                         holds(g, p, n, rf) && longest.starts_with(g) && real_dist(p as u16, n as u16, rf).as_ref().ok() == Some(g)
                     }
                     Err(_) => false,
